@@ -311,6 +311,14 @@ fn get_match_statically_known(
             }
         };
 
+        // Arguments are evaluated one after another in a shared
+        // context: an argument that is not statically known may assign
+        // a local that a later argument reads.
+        if !value_known
+        {
+            return false;
+        }
+
         // Within the rule's production, a parameter always hides
         // a global symbol of the same name, whether or not
         // its argument is statically known.
